@@ -286,6 +286,18 @@ def run_shard(ctx):
             ])()
             _call(ctx, "recursive_contract", lambda: recursive_contract(wrapped), ge.to_src(wrapped),
                   lambda res: res != wrapped, {"e": wrapped})
+        if i % 11 == 3:
+            # operands that contain the constants: 1/P(B) (what Fraction.simplify leaves of P(A)/(P(A)P(B))), 0/P(A),
+            # a joint over 1/P(C), the bare constants - contraction must return something equivalent for each of them
+            from y0.dsl import One, Zero
+
+            q = ge.build_raw(ge.rand_prob(rng, names, PLAIN))
+            for cexpr in (Fraction(One(), q), Fraction(Zero(), q), Fraction(p, Fraction(One(), q)), One(),
+                          Fraction(Product((p, One())), q), Product((Fraction(One(), q), p))):
+                kernel.count("C13:contract:operands-with-constants")
+                _call(ctx, "contract", lambda: contract(cexpr), ge.to_src(cexpr), lambda res: True, {"e": cexpr})
+                _call(ctx, "recursive_contract", lambda: recursive_contract(cexpr), ge.to_src(cexpr), lambda res: True,
+                      {"e": cexpr})
         if i % 50 == 0:
             same = Fraction(p, p)
             _call(ctx, "contract", lambda: contract(same), ge.to_src(same), lambda res: True, {"e": same})
